@@ -580,7 +580,9 @@ def eui64_hostport_url_family():
               detail=(p, mac, exc))
     hosts = ['server01', 'a.b.example.org', 'localhost', '10.0.0.1',
              '255.255.255.255', '::1', '2001:db8:85a3::8a2e:370:7334',
-             'fe80::1%eth0', 'fe80::1%1', '::ffff:1.2.3.4']
+             'fe80::1%eth0', 'fe80::1%1', '::ffff:1.2.3.4',
+             'fe80::1%abcdefghijklmno', 'fe80::1%abcdefghijklmn',
+             'fe80::2%e', '::', 'x', '0.0.0.0']
     for h in hosts:
         for port in (0, 1, 80, 8080, 65535):
             got = N.parse_host_port(N.escape_ipv6(h) + ':' + str(port))
@@ -638,6 +640,19 @@ def eui64_hostport_url_family():
             check('url-family/params-all-values',
                   got.params(collapse=False) == every,
                   detail=(url, got.params(collapse=False), every))
+    for url in ['//h/p?a=1#f', 'h/p', '/p?x=1', '', 'www.example.org/a?b#c',
+                'http://h/p', '//u@h:80/', '?q=1', '#f']:
+        for sch in ('', 'http', 'ftp', 'rabbit'):
+            for af in (True, False):
+                got = N.urlsplit(url, sch, af)
+                want = parse.urlsplit(url, sch, af)
+                check('url-family/default-scheme-honoured',
+                      tuple(got) == tuple(want)
+                      and got.geturl() == want.geturl(),
+                      detail=(url, sch, af, tuple(got), tuple(want)))
+                got = N.urlsplit(url, scheme=sch, allow_fragments=af)
+                check('url-family/keyword-arguments',
+                      tuple(got) == tuple(want), detail=(url, sch, af))
     for url in ['http://h/p#f', 'http://h/p#f?q', 'http://h/p?q#f',
                 'http://h/#', 'http://h/?']:
         for af in (True, False):
